@@ -251,6 +251,7 @@ type ReadSeeker struct {
 	P        Plan
 	Pos      int64
 	Yield    func(site string)
+	Quiet    bool // scheduled runs: several tasks call in; touch no shared harness state, draw nothing
 	failed   bool
 	Inside   int // number of callers currently between entry and exit of Seek/Read (overlap probe)
 	Overlaps int
@@ -285,7 +286,9 @@ func (s *ReadSeeker) Seek(off int64, whence int) (int64, error) {
 		return 0, errors.New("simseeker: negative position")
 	}
 	s.Pos = abs
-	s.Ctx.L.Ev("seek", abs)
+	if !s.Quiet {
+		s.Ctx.L.Ev("seek", abs)
+	}
 	if s.Yield != nil {
 		s.Yield("Seek.ret")
 	}
@@ -295,13 +298,17 @@ func (s *ReadSeeker) Seek(off int64, whence int) (int64, error) {
 func (s *ReadSeeker) Read(p []byte) (int, error) {
 	s.enter("Read")
 	defer s.leave()
-	return readAtCommon(s.Ctx, s.Data, &s.P, &s.failed, p, &s.Pos, false, s.Yield)
+	c := s.Ctx
+	if s.Quiet {
+		c = nil
+	}
+	return readAtCommon(c, s.Data, &s.P, &s.failed, p, &s.Pos, false, s.Yield)
 }
 
 // readAtCommon serves a read at *pos and advances it.
 func readAtCommon(ctx *core.Ctx, data []byte, pl *Plan, failed *bool, p []byte, pos *int64, readerAt bool, yield func(string)) (int, error) {
 	if len(p) == 0 {
-		ctx.L.Ev("sread", 0, 0)
+		evq(ctx, "sread", 0, 0)
 		return 0, nil
 	}
 	lim := int64(len(data))
@@ -314,11 +321,11 @@ func readAtCommon(ctx *core.Ctx, data []byte, pl *Plan, failed *bool, p []byte, 
 	}
 	if *pos >= lim {
 		if fail >= 0 && *pos >= fail {
-			ctx.Count("fault_error_without_data")
-			ctx.L.Ev("sread", 0, 2)
+			cntq(ctx, "fault_error_without_data")
+			evq(ctx, "sread", 0, 2)
 			return 0, pl.Err
 		}
-		ctx.L.Ev("sread", 0, 1)
+		evq(ctx, "sread", 0, 1)
 		return 0, io.EOF
 	}
 	rem := int(lim - *pos)
@@ -328,11 +335,17 @@ func readAtCommon(ctx *core.Ctx, data []byte, pl *Plan, failed *bool, p []byte, 
 		case ChunkFixed:
 			k = pl.Fixed
 		case ChunkSmall:
-			k = 1 + ctx.T.Draw(4)
+			if ctx != nil {
+				k = 1 + ctx.T.Draw(4)
+			}
 		case ChunkAny:
-			k = 1 + ctx.T.Draw(len(p))
+			if ctx != nil {
+				k = 1 + ctx.T.Draw(len(p))
+			}
 		case ChunkRuneM1:
-			k = 1 + ctx.T.Draw(2)
+			if ctx != nil {
+				k = 1 + ctx.T.Draw(2)
+			}
 		}
 	}
 	if k > len(p) {
@@ -342,7 +355,7 @@ func readAtCommon(ctx *core.Ctx, data []byte, pl *Plan, failed *bool, p []byte, 
 		k = rem
 	}
 	if k < len(p) && k < rem {
-		ctx.Count("fault_short_read")
+		cntq(ctx, "fault_short_read")
 	}
 	copy(p, data[*pos:*pos+int64(k)])
 	*pos += int64(k)
@@ -350,18 +363,18 @@ func readAtCommon(ctx *core.Ctx, data []byte, pl *Plan, failed *bool, p []byte, 
 	if *pos == lim {
 		if fail >= 0 && fail == lim {
 			if pl.FailWith || (readerAt && k < len(p)) {
-				ctx.Count("fault_error_with_data")
+				cntq(ctx, "fault_error_with_data")
 				err = pl.Err
 			}
 		} else if readerAt {
 			if k < len(p) {
 				err = io.EOF // io.ReaderAt: n < len(p) must come with an error
 			} else if pl.EOFStyle == EOFWithData {
-				ctx.Count("eof_with_exact_fit")
+				cntq(ctx, "eof_with_exact_fit")
 				err = io.EOF
 			}
 		} else if pl.EOFStyle == EOFWithData {
-			ctx.Count("eof_with_data")
+			cntq(ctx, "eof_with_data")
 			err = io.EOF
 		}
 	}
@@ -371,11 +384,23 @@ func readAtCommon(ctx *core.Ctx, data []byte, pl *Plan, failed *bool, p []byte, 
 	} else if err != nil {
 		e = 2
 	}
-	ctx.L.Ev("sread", int64(k), e)
+	evq(ctx, "sread", int64(k), e)
 	if yield != nil {
 		yield("Read.ret")
 	}
 	return k, err
+}
+
+func evq(ctx *core.Ctx, kind string, a ...int64) {
+	if ctx != nil {
+		ctx.L.Ev(kind, a...)
+	}
+}
+
+func cntq(ctx *core.Ctx, k string) {
+	if ctx != nil {
+		ctx.Count(k)
+	}
 }
 
 // ---------------------------------------------------------------- readerAt
@@ -387,12 +412,20 @@ type ReaderAt struct {
 	Data   []byte
 	P      Plan
 	Yield  func(site string)
+	Quiet  bool
 	seqPos int64
 	failed bool
 }
 
+func (a *ReaderAt) ctx() *core.Ctx {
+	if a.Quiet {
+		return nil
+	}
+	return a.Ctx
+}
+
 func (a *ReaderAt) Read(p []byte) (int, error) {
-	return readAtCommon(a.Ctx, a.Data, &a.P, &a.failed, p, &a.seqPos, false, a.Yield)
+	return readAtCommon(a.ctx(), a.Data, &a.P, &a.failed, p, &a.seqPos, false, a.Yield)
 }
 
 func (a *ReaderAt) ReadAt(p []byte, off int64) (int, error) {
@@ -403,7 +436,7 @@ func (a *ReaderAt) ReadAt(p []byte, off int64) (int, error) {
 		return 0, errors.New("simreaderat: negative offset")
 	}
 	pos := off
-	return readAtCommon(a.Ctx, a.Data, &a.P, &a.failed, p, &pos, true, a.Yield)
+	return readAtCommon(a.ctx(), a.Data, &a.P, &a.failed, p, &pos, true, a.Yield)
 }
 
 // ---------------------------------------------------------------- writer
